@@ -1569,6 +1569,9 @@ class Engine:
             v = args[0]
             if isinstance(v, Num):
                 return Num(v.real(), False)
+            if isinstance(v, (Seq, Tup, NoneV)):            # float(list) / float(tuple) / float(None): TypeError
+                self.raise_exc(st, "TypeError", z3.BoolVal(True), node.lineno, exits)
+                raise _DeadPath()
             raise Unsupported("float() of %r" % (v,))
         if name == "int":
             v = args[0]
